@@ -227,7 +227,7 @@ class Spec:
             spec.clock = (mod, var)
 
         ns = dict(
-            REAL=REAL, INT=INT, BOOL=BOOL, ATOM=ATOM, CHARS=CHARS, NONE=NONE, Ref=Ref, Opt=Opt, Tup=Tup, ListOf=ListOf, MapOf=MapOf,
+            REAL=REAL, MONEY=MONEY, INT=INT, BOOL=BOOL, ATOM=ATOM, CHARS=CHARS, NONE=NONE, Ref=Ref, Opt=Opt, Tup=Tup, ListOf=ListOf, MapOf=MapOf,
             schema=schema, struct=struct, record=record, module_var=module_var, const=const, inline=inline, lock=lock,
             abstract_bool=abstract_bool, class_tag=class_tag, contract=contract, virtual=virtual, external=external, lemma=lemma,
             abstract_property=abstract_property, dispatch=dispatch, MapOfDefault=MapOfDefault, grid=grid, ground_numbers=ground_numbers, charset=charset, clock=clock, Fraction=Fraction_,
